@@ -69,8 +69,11 @@ func propGen(prop, tier string, idx int) GenOpts {
 		}
 		// "a failed construction yields no instance and may be retried"
 		if idx%4 == 3 {
+			// failed constructions may be retried; a constructor that leaves one of several results
+			// nil has NOT failed - its other results are the scope's instances and stay so
 			o.FaultBudget = [4]int{2, 5, 3, 0}
-			o.WFault = [4]int{3, 2, 0, 0}
+			o.WFault = [4]int{3, 2, 3, 0}
+			o.PMulti, o.PResult = 250, 300
 		}
 	case "C03":
 		o.WLife = [3]int{3, 3, 6}
